@@ -240,3 +240,28 @@ def release(mod, real):
     key = (mod.__name__, real.__name__)
     if key in _BOUND:
         unbind(_BOUND.pop(key))
+
+
+class ModuleState:
+    """Snapshot of the mutable module-level containers of a module under analysis (caches, registries).  ``restore()`` at
+    the start of a harness makes every explored path start from the import-time state, so a counterexample never depends
+    on what an earlier path left behind in the process."""
+
+    def __init__(self, mod):
+        import collections
+        import copy
+        self.mod = mod
+        self.snap = {}
+        for name, val in list(vars(mod).items()):
+            if name.startswith("__"):
+                continue
+            if isinstance(val, (dict, list, set, collections.deque)):
+                try:
+                    self.snap[name] = copy.deepcopy(val)
+                except Exception:  # noqa: BLE001
+                    pass
+
+    def restore(self):
+        import copy
+        for name, val in self.snap.items():
+            setattr(self.mod, name, copy.deepcopy(val))
